@@ -70,6 +70,7 @@ type Contract struct {
 	Sets      []*Clause // By = name
 	GSets     []*GSet   // ghost field updates: gset <field> <object> = <value>
 	GHavocs   []*GSet   // ghost fields a verified function may change: ghavoc <field> <object>
+	DynSets   []*Clause // "dyncall sets x = e": effect on ghost variables of a call through an unknown function value inside the verified function
 }
 
 // parseContracts reads //@ blocks from the zz_verif_contracts*.go files of a package.
@@ -222,6 +223,22 @@ func (p *Program) contractLine(pk *packages.Package, cur **Contract, line, pos s
 			return err
 		}
 		c.GSets = append(c.GSets, &GSet{Field: fld, Obj: oc, Val: vc})
+	case "dyncall":
+		// dyncall sets <ghostvar> = <expr>
+		kw, r2 := splitWord(rest)
+		if kw != "sets" {
+			return fmt.Errorf("%s: dyncall supports only 'sets'", pos)
+		}
+		i := strings.Index(r2, "=")
+		if i < 0 {
+			return fmt.Errorf("%s: dyncall sets needs '<name> = <expr>'", pos)
+		}
+		cl, err := mkClause(strings.TrimSpace(r2[i+1:]))
+		if err != nil {
+			return err
+		}
+		cl.By = strings.TrimSpace(r2[:i])
+		c.DynSets = append(c.DynSets, cl)
 	case "ghavoc":
 		fld, r2 := splitWord(rest)
 		oc, err := mkClause(strings.TrimSpace(r2))
